@@ -75,9 +75,17 @@ class AllocModel:
             if c.get("path") in which:
                 ro = body.arg_origin(bb, 0)
                 co = body.call_of(ro)
+                # `generations.get_mut(i).expect("..")` / `.unwrap()`: the checked spelling of `generations[i]` (benign C01-s1, C05-s1)
+                hops = 0
+                while co and co[1].get("name") in ("expect", "unwrap", "unwrap_unchecked", "unwrap_or_else") and hops < 3:
+                    co = body.call_of(body.arg_origin(co[0], 0))
+                    hops += 1
                 if co and co[1].get("name") in ("index_mut", "index", "get_mut", "get_unchecked_mut"):
                     ibb = co[0]
-                    if self.field_of(body, body.arg_origin(ibb, 0)) == ("generations",):
+                    ro2 = body.arg_origin(ibb, 0)
+                    if ro2[0] == "call" and body.term(ro2[1])["callee"].get("name") in ("deref", "deref_mut", "as_mut_slice", "as_slice") and body.term(ro2[1])["args"]:
+                        ro2 = body.arg_origin(ro2[1], 0)
+                    if self.field_of(body, ro2) == ("generations",):
                         out.append((bb, self.index_key(body, body.arg_origin(ibb, 1))))
                         continue
                 out.append((bb, None))
